@@ -62,13 +62,16 @@ def gen_case(rng, idx):
     cplx = rng.random() < 0.45
     cond = float(rng.choice([1.0, 3.0, 10.0, 100.0, 1000.0, 10 ** rng.uniform(0, 3)]))
     kind = rng.choice(["log", "log", "repeated", "cluster"])
-    pre = rng.choice([None, None, "spd", "jacobi"])
+    # "identity-*" / "view-fn" return their INPUT array (or a view of it): z aliases r inside the solver
+    pre = rng.choice([None, None, "spd", "spd", "jacobi", "identity-linop", "identity-fn", "view-fn"])
     form = rng.choice(["linop", "function"])
     mi = rng.choice([1, 2, n, n + 3])
     tolk = rng.choice(["zero", "zero", "pos"])
     x0k = rng.choice(["zero", "random"])
     c = dict(n=n, cplx=cplx, cond=cond, spec=kind, pre=pre, form=form, max_iter=mi, tolk=tolk, x0k=x0k,
              definite="pd", npseed=rng.randrange(2 ** 31))
+    if rng.random() < 0.12:
+        c["alias_xb"] = True          # the caller passes the SAME array as b and as x (x0 = b)
     r = rng.random()
     if r < 0.06:
         c["definite"] = "negative"
@@ -90,7 +93,7 @@ def build(c):
         signs = [rng.choice([-1.0, 1.0]) for _ in range(n)]
         signs[0], signs[-1] = 1.0, -1.0
     if "A" in c:      # explicit matrices (corpus / replay)
-        A = np.array(c["A"][0]) + (1j * np.array(c["A"][1]) if cplx else 0)
+        A = np.array(c["A"][0], dtype=float) + (1j * np.array(c["A"][1], dtype=float) if cplx else 0)
         A = A if cplx else A.real
     else:
         A = hpd(rng, nprng, n, c["cond"], cplx, c["spec"], signs)
@@ -100,6 +103,8 @@ def build(c):
     elif c["pre"] == "jacobi":
         d = 1.0 / np.abs(np.real(np.diag(A)))
         P = np.diag(d).astype(A.dtype)
+    elif c["pre"] in ("identity-linop", "identity-fn", "view-fn"):
+        P = np.eye(n, dtype=A.dtype)      # the matrix the model / oracle use; the solver gets an aliasing callable
 
     def vec():
         v = nprng.standard_normal((n, 1))
@@ -111,6 +116,11 @@ def build(c):
     if c.get("b_int"):       # small-integer data: exact arithmetic until the first division
         b = np.round(b * 3)
         x0 = np.round(x0 * 2)
+    if "b" in c:             # explicit data (corpus)
+        b = (np.array(c["b"][0]) + (1j * np.array(c["b"][1]) if cplx else 0)).reshape(n, 1)
+        x0 = np.zeros((n, 1))
+    if c.get("alias_xb"):
+        x0 = b.copy()
     tol = 0.0
     if c["tolk"] == "pos":
         tol = float(np.linalg.norm(b) * 10 ** rng.uniform(-6, -1))
@@ -128,6 +138,31 @@ def corpus_cases():
     out.append(dict(base, n=5, max_iter=8, npseed=10, definite="indefinite", x0k="random"))
     out.append(dict(base, n=3, max_iter=6, npseed=11, A=[[[2.0, 0, 0], [0, 2.0, 0], [0, 0, 2.0]], None], b_int=True))  # converges in 1 step
     out.append(dict(base, n=4, max_iter=7, npseed=12, spec="repeated", cond=100.0, pre="spd"))
+    # preconditioners that return their input (object or view): p must still be a private copy
+    for k, pre in enumerate(["identity-linop", "identity-fn", "view-fn"]):
+        out.append(dict(base, n=5, max_iter=8, npseed=20 + k, pre=pre, x0k="random"))
+        out.append(dict(base, n=3, max_iter=2, npseed=30 + k, pre=pre, cplx=True, form="function"))
+        out.append(dict(base, n=4, max_iter=1, npseed=40 + k, pre=pre))
+    out.append(dict(base, n=5, max_iter=8, npseed=50, alias_xb=True))
+    out.append(dict(base, n=4, max_iter=6, npseed=51, alias_xb=True, pre="identity-fn", cplx=True, form="function"))
+    # singular PSD / zero operators with exact data: a direction with p^H A p == 0 EXACTLY is reached;
+    # the solver must stop with not_positive_definite and a finite x
+    Z2 = [[0.0, 0.0], [0.0, 0.0]]
+    sing = [
+        ([[1.0, 0.0], [0.0, 0.0]], [1.0, 1.0], None),                         # second update has p = (0, 2)
+        ([[4.0, 0.0], [0.0, 0.0]], [2.0, 2.0], None),
+        ([[0.0, 0.0], [0.0, 0.0]], [1.0, -3.0], None),                        # zero operator: first update
+        ([[0.0, 0.0], [0.0, 2.0]], [3.0, 0.0], None),                         # residual in the null space at once
+        ([[1, 0, 0, 0], [0, 1, 0, 0], [0, 0, 0, 0], [0, 0, 0, 0]], [1.0, 1.0, 1.0, 1.0], None),
+        ([[2.0, 0.0], [0.0, 0.0]], [1.0, 1.0], [0.0, 1.0]),                   # complex data, b = (1, 1+i): |b_R|^2 != |b_N|^2
+        ([[1.0, 0.0], [0.0, 0.0]], [1.0, 0.0], [0.0, 1.0]),                   # b = (1, i)
+    ]
+    for k, (Am, bre, bim) in enumerate(sing):
+        n = len(Am)
+        for pre, form, mi in ((None, "linop", 5), ("identity-fn", "function", 4), (None, "function", n + 3)):
+            cplx = bim is not None
+            out.append(dict(base, n=n, max_iter=mi, npseed=60 + k, definite="singular", pre=pre, form=form, cplx=cplx,
+                            A=[Am, [[0.0] * n for _ in range(n)]], b=[bre, bim if cplx else None], exact=True))
     return out
 
 
@@ -156,12 +191,20 @@ def run_impl(sp, c, arrays=None):
     n = c["n"]
     x = x0.copy()
     b_arg = b.copy()
+    if c.get("alias_xb"):
+        b_arg = x                                     # one array passed as b AND as x
     if c["form"] == "linop":
         Aop = sp.linop.MatMul([n, 1], A)
         Pop = None if P is None else sp.linop.MatMul([n, 1], P)
     else:
-        Aop = lambda v: A @ v                         # noqa: E731
+        Aop = lambda v: A @ v                         # noqa: E731   (fresh array every call)
         Pop = None if P is None else (lambda v: P @ v)
+    if c["pre"] == "identity-linop":
+        Pop = sp.linop.Identity([n, 1])               # returns its input object
+    elif c["pre"] == "identity-fn":
+        Pop = lambda v: v                             # noqa: E731
+    elif c["pre"] == "view-fn":
+        Pop = lambda v: v[:]                          # noqa: E731   (a view sharing memory)
     alg = sp.alg.ConjugateGradient(Aop, b_arg, x, P=Pop, max_iter=c["max_iter"], tol=tol)
     obs = [observe(alg)]
     canon = None            # number of updates the canonical loop `while not done: update` performs
@@ -195,7 +238,9 @@ def scales(R):
     nP = 1.0 if P is None else np.linalg.norm(P, 2)
     sr = (np.linalg.norm(b) + nA * np.linalg.norm(x0)) or 1.0
     xs = max([np.linalg.norm(o["x"]) for o in R["obs"]] + [1e-300])
-    amax = max(1.0, 1.0 / min(abs(np.linalg.eigvalsh(A))))
+    ev = np.abs(np.linalg.eigvalsh(A))
+    ev = ev[ev > 1e-12 * max(ev.max(), 1e-300)]
+    amax = max(1.0, 1.0 / ev.min()) if ev.size else 1.0
     sx = max(xs, np.linalg.norm(x0), sr * amax * nP)
     return sx, sr * max(1.0, nP), sr * sr * nP, sr * np.sqrt(nP)
 
@@ -233,8 +278,9 @@ def kappa_eff(A, P):
 
 def growth_limit(kap, k):
     """empirical envelope of the finite-precision deviation of CG from exact CG after k updates, relative to
-    the initial error (calibrated on 9.5k prefixes: factor-2 envelope had no exceedance; 3 is used)"""
-    return 1e-15 * (3.0 * np.sqrt(kap)) ** k + 1e-13 * kap
+    the initial error (calibrated on 22k prefixes biased to kappa(PA) up to 1e4: base 3 reached 0.32 of the envelope in
+    the sample and was exceeded once in later runs at k = n; base 6 stayed below 0.04 and is used)"""
+    return 1e-15 * (6.0 * np.sqrt(kap)) ** k + 1e-13 * kap
 
 
 def anorm(A, v):
@@ -273,10 +319,25 @@ def oracle(c, R):
     n, mi = c["n"], c["max_iter"]
     sx, sr, srz, sres = scales(R)
     # in place / caller's array
-    if not R["same_object"] or not np.array_equal(R["caller_x"], obs[-1]["x"]) or not np.array_equal(R["caller_x"], R["alg"].x):
+    if not R["same_object"] or not np.array_equal(R["caller_x"], obs[-1]["x"], equal_nan=True) \
+            or not np.shares_memory(R["caller_x"], R["alg"].x):
         bad.append(("inplace", "solution is not written into the caller's array", {}))
-    if not np.array_equal(R["b_after"], b):
+    if not c.get("alias_xb") and not np.array_equal(R["b_after"], b):
         bad.append(("b-mutated", "right-hand side array modified", {}))
+    for k, o in enumerate(obs):
+        if not (np.all(np.isfinite(o["x"])) and np.all(np.isfinite(o["r"])) and np.all(np.isfinite(o["p"]))):
+            bad.append(("nonfinite", "x / r / p not finite after %d updates (the solver diverged instead of stopping)" % k, {"k": k}))
+            break
+    if c["definite"] == "singular":
+        # exact data: some update meets p^H A p == 0 exactly; it must raise the flag, keep x, and done() must hold
+        hit = [k for k in range(1, len(obs)) if obs[k]["npd"]]
+        zero_dir = [k for k in range(1, len(obs))
+                    if float(np.real(np.vdot(obs[k - 1]["p"], A @ obs[k - 1]["p"]))) <= 0 and not obs[k - 1]["npd"]]
+        if zero_dir and (not hit or hit[0] != zero_dir[0]):
+            bad.append(("singular-no-stop", "update %d had p^H A p == 0 exactly but not_positive_definite was not raised there"
+                        % zero_dir[0], {"k": zero_dir[0]}))
+        if not zero_dir and mi >= 2:
+            bad.append(("singular-unreached", "corpus case did not reach a zero-curvature direction (generator problem)", {}))
     # breakdown bookkeeping: flag raised exactly when p^H A p <= 0 at that update, x then unchanged, done() true
     for k in range(1, len(obs)):
         prev, cur = obs[k - 1], obs[k]
@@ -290,7 +351,7 @@ def oracle(c, R):
                 bad.append(("npd-moves", "x or r changed by an update that flagged breakdown", {"k": k}))
             if not cur["done"]:
                 bad.append(("npd-not-done", "done() is false after breakdown", {"k": k}))
-        elif pAp < -margin:
+        elif pAp < -margin or (c.get("exact") and pAp <= 0):
             bad.append(("npd-missed", "update with p^H A p = %g <= 0 did not raise not_positive_definite" % pAp, {"k": k}))
         if cur["iter"] != k:
             bad.append(("iter", "iter = %d after %d updates" % (cur["iter"], k), {"k": k}))
@@ -374,7 +435,8 @@ def case_record(c, R):
 
 
 def classify(c):
-    return "%s:%s:%s:%s" % ("complex" if c["cplx"] else "real", c["definite"], "P" if c["pre"] else "noP", c["form"])
+    pk = {None: "noP", "spd": "P", "jacobi": "P"}.get(c["pre"], "P-aliasing")
+    return "%s:%s:%s:%s%s" % ("complex" if c["cplx"] else "real", c["definite"], pk, c["form"], ":x-is-b" if c.get("alias_xb") else "")
 
 
 # ---------------------------------------------------------------- the check
@@ -461,7 +523,9 @@ def run(ctx):
                       {"kind": "proof", "broken": broken}, found_input=False, signature="C12:proof")
     ctx.coverage["rule"] = (
         "seeded generator: real-symmetric / complex-Hermitian PD systems n=1..12, cond 1..1e3 (log-spread, repeated and clustered "
-        "spectra), no / dense SPD / Jacobi preconditioner, A as linop.MatMul or Python function, max_iter in {1,2,n,n+3}, tol 0 or "
+        "spectra), no / dense SPD / Jacobi preconditioner and preconditioners that return their input (linop.Identity, identity "
+        "function, view-returning function), the same array passed as b and x, exact singular-PSD / zero operators reaching "
+        "p^H A p == 0, A as linop.MatMul or Python function, max_iter in {1,2,n,n+3}, tol 0 or "
         ">0, zero or random x0, plus negative-definite and indefinite matrices; every update of every trajectory is one compared "
         "state; a trajectory is non-trivial when x moved (or the matrix is not PD); distinct = distinct (n, max_iter, seed)")
     ctx.trusted += TRUSTED
